@@ -201,6 +201,75 @@ def write_param_baseline(dirs_files):
     return out
 
 
+BASELINE_CLOSURES = os.path.join(os.path.dirname(os.path.abspath(__file__)), "tables", "closure_baseline.json")
+_CLOS_RE = None
+
+
+def _closure_sigs(d):
+    """parent key (a body that is not itself a closure) -> [(closure number, kind)]"""
+    out = {}
+    for b in d["bodies"]:
+        k = b["key"]
+        if "::{closure#" not in k:
+            continue
+        par, n = k.rsplit("::{closure#", 1)
+        if "{closure#" in par or not n.endswith("}"):
+            continue
+        try:
+            out.setdefault(par, []).append((int(n[:-1]), b["kind"]))
+        except ValueError:
+            pass
+    for v in out.values():
+        v.sort()
+    return out
+
+
+def _closure_renumbering(d):
+    """Closures are numbered by rustc in source order within their function; a closure added earlier in the function
+    shifts the numbers of the later ones. Top-level closures are renumbered to the committed baseline by (kind,
+    ordinal among that kind): `async move {..}` blocks and plain closures are counted separately."""
+    try:
+        with open(BASELINE_CLOSURES) as f:
+            base = json.load(f).get(d["crate"] + ":" + d["crate_type"] + ":" + str(d.get("config")), {})
+    except (OSError, ValueError):
+        return {}
+    ren = {}
+    for par, lst in _closure_sigs(d).items():
+        b = [(n, k) for n, k in base.get(par, [])]
+        if lst == b or not b:
+            continue
+        pool = {}
+        for n, k in b:
+            pool.setdefault(k, []).append(n)
+        for n, k in lst:
+            q = pool.get(k)
+            tgt = q.pop(0) if q else 1000 + n
+            if tgt != n:
+                ren[(par, n)] = tgt
+    return ren
+
+
+def _renumber_closures_text(text, ren):
+    import re
+    parents = sorted({p for p, _n in ren}, key=len, reverse=True)
+    for par in parents:
+        pat = re.compile(re.escape(par) + r"::\{closure#(\d+)\}")
+        text = pat.sub(lambda m, par=par: "%s::{closure#%d}" % (par, ren.get((par, int(m.group(1))), int(m.group(1)))), text)
+    return text
+
+
+def write_closure_baseline(dirs_files):
+    out = {}
+    for facts_dir, files in dirs_files:
+        for f in files:
+            with open(os.path.join(facts_dir, f)) as fh:
+                d = json.load(fh)
+            out[d["crate"] + ":" + d["crate_type"] + ":" + str(d.get("config"))] = {p: [[n, k] for n, k in v] for p, v in sorted(_closure_sigs(d).items())}
+    with open(BASELINE_CLOSURES, "w") as fh:
+        json.dump(out, fh, indent=0, sort_keys=True)
+    return out
+
+
 def write_impl_baseline(facts_dir, files):
     out = {}
     for f in files:
@@ -217,7 +286,7 @@ def _load_doc(path):
     import marshal
     mp = path + ".marshal"
     try:
-        if os.path.getmtime(mp) >= max([os.path.getmtime(path)] + [os.path.getmtime(x) for x in (BASELINE_IMPLS, BASELINE_PARAMS) if os.path.exists(x)]):
+        if os.path.getmtime(mp) >= max([os.path.getmtime(path)] + [os.path.getmtime(x) for x in (BASELINE_IMPLS, BASELINE_PARAMS, BASELINE_CLOSURES) if os.path.exists(x)]):
             with open(mp, "rb") as fh:
                 return marshal.load(fh)
     except (OSError, ValueError, EOFError, TypeError):
@@ -229,6 +298,15 @@ def _load_doc(path):
     if ren:
         d = json.loads(_renumber_text(text, ren))
         d["impl_renumbered"] = sorted("%s::{impl#%d}->%d" % (m, n, t) for (m, n), t in ren.items())
+    cren = _closure_renumbering(d)
+    if cren:
+        # two passes through a temporary number space so that swaps do not collide
+        tmp = {k: 500000 + v for k, v in cren.items()}
+        t2 = _renumber_closures_text(json.dumps(d), tmp)
+        back = {(p_, 500000 + v): v for (p_, _n), v in cren.items()}
+        t2 = _renumber_closures_text(t2, back)
+        d = json.loads(t2)
+        d["closures_renumbered"] = sorted("%s::{closure#%d}->%d" % (p_, n, t) for (p_, n), t in cren.items())
     d["params_renamed"] = _rename_params(d)
     try:
         tmp = mp + ".%d" % os.getpid()
